@@ -79,7 +79,7 @@ class C06(runner.Check):
         for q in range(4):
             add(4, 2, 3, ff=f"sym{q}", cost=10)  # full_fraction symbolic in (q/4, (q+1)/4]: the four ranges cover (0,1]
         add(4, 2, 3, init=2, ff="1/1000", cost=6)  # always the pruned (sparse) update
-        add(3, 1, 3, init=1, ff="1/1000", cost=2)  # three points on a line, all selected, always pruned
+        add(3, 2, 3, init=1, ff="1/1000", cost=2)  # three points, all selected, always the pruned update
         add(3, 2, 3, init=0, ff="sym", cost=3)
         add(4, 2, 2, warm=3, ff="1/2", cost=6)
         add(4, 2, None, cost=2)
